@@ -1403,7 +1403,7 @@ def node_attr_dict(eng, st, g, name):
     keys = dty.keys(d.t)
     karr, klen = dty.keys_ty.arr(keys), dty.keys_ty.length(keys)
     st.assume(*ops.dict_wf(d))
-    st.assume(z3.ForAll([n], dty.has(d.t)[n] == z3.And(hasn_t[n], nh_t[n]), patterns=[dty.has(d.t)[n]]),
+    st.assume(z3.ForAll([n], dty.has(d.t)[n] == z3.And(hasn_t[n], nh_t[n]), patterns=[dty.has(d.t)[n], nh_t[n]]),
               z3.ForAll([n], z3.Implies(dty.has(d.t)[n], dty.valmap(d.t)[n] == nv_t[n]), patterns=[dty.valmap(d.t)[n]]),
               # keys appear in node order
               z3.ForAll([a, b], z3.Implies(z3.And(0 <= a, a < b, b < klen), nidx_t[karr[a]] < nidx_t[karr[b]]),
